@@ -4,7 +4,9 @@ For the property under check: every seeded breaking change of /verif/seeded (sub
 were confirmed to break the property while passing the test-suite, and the reversed `fix:` commits
 that re-introduce the genuine defects) is applied to a scratch copy of /repo's package in a fresh
 temporary directory; the checker must report a violation on it.  Two behaviour-preserving twins
-computed on the syntax tree (reformat, rename-locals) must leave the checker silent.  A miss or a
+computed on the syntax tree (reformat, rename-locals) and the 50 behaviour-preserving refactorings of
+/verif/seeded/twin-* (written by sub-agents, confirmed to leave tests and behaviour unchanged) must
+leave the checker silent.  A miss or a
 twin alarm means the checker is broken: ANALYSIS-ERROR, never a verdict about /repo.
 Nothing is executed: variants are parsed and analysed like /repo itself."""
 import ast
@@ -72,11 +74,16 @@ def run(cx, pid):
     jobs = []
     for d in sorted(glob.glob(os.path.join(VERIF, 'seeded', '*', 'meta.json'))):
         meta = json.load(open(d))
+        if meta.get('kind') == 'refactoring':
+            continue
         if meta.get('property') == pid or pid in meta.get('also', []):
             jobs.append((pid, 'breaking', os.path.basename(os.path.dirname(d)), os.path.join(os.path.dirname(d), 'patch.diff'),
                          bool(meta.get('reverse'))))
     for t in ('reformat', 'rename-locals'):
         jobs.append((pid, 'twin', t, None, False))
+    # behaviour-preserving refactorings written by sub-agents (confirmed: test-suite and behaviour unchanged)
+    for d in sorted(glob.glob(os.path.join(VERIF, 'seeded', 'twin-*', 'meta.json'))):
+        jobs.append((pid, 'refactoring', os.path.basename(os.path.dirname(d)), os.path.join(os.path.dirname(d), 'patch.diff'), False))
     with ProcessPoolExecutor(min(16, max(1, len(jobs)))) as ex:
         results = list(ex.map(_one, jobs))
     missed, alarms, stale = [], [], []
